@@ -1921,6 +1921,61 @@ func (g *gen) degenerateDhDraw(w *world) {
 	}
 }
 
+// C19 / C04 / C09: the schedule that attains the bound of theorem `c19_two_party_reveal_bound` (Props.C19Two,
+// `c19_bound_attained`): A sends, B sends, B receives, B sends, A receives, A sends, A receives, B receives, B sends,
+// A receives — A's reveal queue then holds three MAC keys (the proved maximum for two honest parties over FIFO
+// channels) and A's next data message reveals all three. Every text must arrive exactly once, in order; the reveal
+// field never carries more than three keys; in both directions (roles swapped) and both versions.
+func (g *gen) maxRevealSchedule(w *world, k int) {
+	version := 2 + k%2
+	sl := newSchedLink(w, g, version, 0, 0)
+	if !sl.a.c.IsEncrypted() || !sl.b.c.IsEncrypted() || w.dead {
+		return
+	}
+	A, B := sl.a, sl.b
+	toB := true // direction A -> B
+	if (k/2)%2 == 1 {
+		A, B = B, A
+		toB = false
+	}
+	g.dist["sched:max-reveal-schedule"]++
+	sA := func() { sl.sendText(A, g.cleanText()) }
+	sB := func() { sl.sendText(B, g.cleanText()) }
+	dAB := func() { sl.deliverOne(toB) }
+	dBA := func() { sl.deliverOne(!toB) }
+	for _, step := range []func(){sA, sB, dAB, sB, dBA, sA, dBA, dAB, sB, dBA} {
+		if w.dead {
+			return
+		}
+		step()
+	}
+	queued := otr3.VerifSnapshot(A.c).OldMACKeys
+	olog.ok("C19")
+	g.dist[fmt.Sprintf("sched:max-reveal-schedule:queue=%d", queued)]++
+	if queued > 3 {
+		olog.viol("C19", "reveal-queue-above-proved-bound", fmt.Sprintf("OTRv%d: after the schedule sA sB dAB sB dBA sA dBA dAB sB dBA the reveal queue of %s holds %d MAC keys; for two honest parties over FIFO channels the proved maximum is 3", version, A.id, queued))
+	}
+	if k >= 4 {
+		// with the queue at its maximum (and further used keys still in the MAC history) the session is replaced by a
+		// new key exchange: everything is carried over and the first data message of the new session reveals it all
+		w.tick(75)
+		st := []*party{A, B}[(k/4)%2]
+		sl.enqueue(st, []otr3.ValidMessage{w.query(st)})
+		sl.drain()
+		g.dist["sched:max-reveal-schedule:then-re-ake"]++
+	}
+	// the message that reveals them, then ordinary traffic both ways
+	sA()
+	sl.drain()
+	for i := 0; i < 2 && !w.dead; i++ {
+		sB()
+		sl.drain()
+		sA()
+		sl.drain()
+	}
+}
+
+
 // C05: a data message that carries a TEXT and has the flag IGNORE_UNREADABLE set (legal on the wire:
 // the flag only asks the addressee to stay quiet should it be unable to read the message) is accepted
 // once like any other. Delivered again - straight away, after more traffic under the same key pair,
@@ -2082,6 +2137,11 @@ func init() {
 			case 2:
 				g.flaggedTextReplay(w)
 			}
+		}
+		for k := 0; k < 8; k++ {
+			w.parties = map[string]*party{}
+			w.dead = false
+			g.maxRevealSchedule(w, k)
 		}
 		extra["panics"] = panicCount
 		olog.export(extra)
